@@ -245,6 +245,21 @@ def shape(tr, t, depth=0):
     return t
 
 
+def decisions(tr, body):
+    """The branch decisions of a body: (shape of the switched value, arm values). Two computations with the same value
+    expression trees can still differ in *when* each alternative is taken; this captures the guards."""
+    out = set()
+    for bk in body.blocks:
+        t = bk.term
+        if t["k"] == "switch":
+            d = shape(tr, tr.norm(tr.operand(t["discr"])))
+            # for an unsigned counter `x != 0` and `x > 0` are the same guard
+            if isinstance(d, tuple) and d[0] == "binop" and d[1] == "Ne" and d[3] == ("int", 0) and "Atomic::<u" in str(d[2]):
+                d = ("binop", "Gt", d[2], d[3])
+            out.add((d, tuple(sorted(str(v) for v, _ in t["arms"]))))
+    return frozenset(out)
+
+
 def snapshot_agrees(run, f):
     sb = f.body(MC + "::snapshot")
     if not run.require(sb is not None, "O20.4", "snapshot-present", "MetricsCollector::snapshot not found", "found"):
@@ -255,6 +270,8 @@ def snapshot_agrees(run, f):
     if not run.require(ret[0] == "agg" and ret[1][0] == "adt" and ret[1][1].endswith("MetricsSnapshot"), "O20.4", "snapshot-aggregate", "snapshot() does not build a MetricsSnapshot", "builds MetricsSnapshot"):
         return
     names = ret[1][3]
+    sdec = decisions(str_, sb)
+    adec = set()
     for nm, val in zip(names, ret[2]):
         ab = f.body(MC + "::" + nm)
         if not run.require(ab is not None, "O20.4", "accessor-present:%s" % nm, "no accessor MetricsCollector::%s for snapshot field" % nm, "found"):
@@ -262,7 +279,20 @@ def snapshot_agrees(run, f):
         atr = tracer_of(ab)
         s1 = shape(str_, val)
         s2 = shape(atr, atr.norm(atr.local(0)))
+        if s1 == ("call", MC + "::" + nm, (("param", 1),)):
+            # snapshot() delegates this field to the accessor itself: agreement by construction
+            run.ok("O20.4", "snapshot-equals-accessor:%s" % nm, "snapshot() calls the accessor")
+            run.ok("O20.4", "snapshot-guards-equal-accessor:%s" % nm, "snapshot() calls the accessor")
+            sdec = sdec | decisions(atr, ab)
+            adec |= decisions(atr, ab)
+            continue
         run.require(s1 == s2, "O20.4", "snapshot-equals-accessor:%s" % nm, "snapshot().%s is computed as %s but %s() as %s" % (nm, s1, nm, s2), "same expression tree as the accessor")
+        d = decisions(atr, ab)
+        adec |= d
+        run.require(d <= sdec, "O20.4", "snapshot-guards-equal-accessor:%s" % nm, "%s() branches on %s, which snapshot() does not (snapshot branches on %s)" % (nm, sorted(map(str, d - sdec)), sorted(map(str, sdec))),
+                    "every branch condition of the accessor is a branch condition of snapshot()")
+    run.require(sdec <= adec, "O20.4", "snapshot-guards-equal-accessors", "snapshot() branches on %s, which no accessor does (accessors branch on %s)" % (sorted(map(str, sdec - adec)), sorted(map(str, adec))),
+                "every branch condition of snapshot() is a branch condition of the accessor computing that field")
     # ActorRef metric methods forward
     for nm in list(names) + ["metrics"]:
         d = "actor_ref::ActorRef::<T>::" + nm
